@@ -171,7 +171,12 @@ def pattern_list(draw, max_p=4):
                 o = o[:-1]
             if draw(st.integers(0, 3)) == 0:
                 o = o + [[99.0, 60.0]]
+            if draw(st.integers(0, 3)) == 0:
+                # the same (onset, midi) pair listed twice inside one occurrence: valid (the MIREX fixtures contain such rows)
+                o = o + [list(o[draw(st.integers(0, len(o) - 1))])]
             occs.append(o)
+        if draw(st.integers(0, 5)) == 0:
+            occs[0] = occs[0] + [list(occs[0][0])]
         P.append(occs)
     return P
 
